@@ -16,7 +16,7 @@ RULE = (
     "task_indices; (identity) q(u)=p(u) => q(f)=prior, KL=0, whitened vs unwhitened same q(u) => same q(f); distinct = cell without seed; "
     "non-trivial iff q(u) != p(u) (KL > 1e-3) except for the identity cells"
 )
-REQUIRED = ["qu_encodes_parameters", "qf_mean", "qf_covar", "qf_train_variance", "kl_closed_form", "qu_equals_prior_gives_prior", "whitened_equals_unwhitened", "lmc_mixing", "indep_mixing", "grid_interp_qf", "bdvs_qf"]
+REQUIRED = ["qu_encodes_parameters", "qf_mean", "qf_mean_skipvar", "qf_covar", "qf_train_variance", "kl_closed_form", "qu_equals_prior_gives_prior", "whitened_equals_unwhitened", "lmc_mixing", "indep_mixing", "grid_interp_qf", "bdvs_qf"]
 ASSUMPTIONS = [
     "jitter rule: a result is accepted when it matches the closed form with the strategy's jitter_val on K_ZZ/K_XX or, within 2x the difference between the two, the one without",
     "CIQ is compared at num_contour_quadrature=40, tight tolerances, 1e-3 relative",
@@ -302,6 +302,26 @@ def _svgp(case, ctx, g):
         ctx.close("kl_closed_form", kl_train, _reduce_to(kl_ref_j, kl_train.shape), tol, **kz, cls=cls + ":kl_train", alt=_reduce_to(kl_ref_0, kl_train.shape), strategy=strat, dist=dist, mode="train")
         ctx.close("kl_closed_form_eval", kl_eval, _reduce_to(kl_ref_j, kl_eval.shape), tol, kl_is_zero=bool((kl_eval == 0).all()), cls=cls + ":kl_eval", alt=_reduce_to(kl_ref_0, kl_eval.shape), strategy=strat, dist=dist, mode="eval")
         nontriv = float(kl_ref_0.abs().max()) > 1e-3
+    # mean-only evaluation (skip_posterior_variances) before and after the parameters have moved: still the closed form
+    # of the CURRENT parameters
+    if not ciq:
+        with torch.no_grad(), S.skip_posterior_variances(True):
+            m.eval()
+            ctx.close("qf_mean_skipvar", m(X).mean, ref_mean_j.expand(mean.shape), tol, cls=cls + ":mean_skipvar", alt=ref_mean_0.expand(mean.shape), strategy=strat, dist=dist)
+            m.train()
+            g2 = util.gen(case["seed"] + 991)
+            util.randomize(m.mean_module, g2, 0.7)
+            util.randomize(m.covar_module, g2, 0.4)
+            _randomize_vd(vs._variational_distribution, dist, g2)
+            vs.inducing_points.data = vs.inducing_points.data + 0.1 * util.randn(g2, *vs.inducing_points.shape)
+            m.eval()
+            Z2 = vs.inducing_points.detach()
+            Kzz2, Kxz2, Kxx2, mz2, mx2 = _pieces(m, Z2.expand(*full, M_, D), Xe)
+            (mu_j2, Su_j2), (mu_02, Su_02) = _qu_unwhitened(strat, dist, vs, Kzz2, mz2, jit)
+            r_j, _ = _closed_form(Kzz2, Kxz2, Kxx2, mz2, mx2, mu_j2, Su_j2, jit, jit if strat != "UnwhitenedVariationalStrategy" else 0.0)
+            r_0, _ = _closed_form(Kzz2, Kxz2, Kxx2, mz2, mx2, mu_02, Su_02, 0.0, 0.0)
+            got2 = m(X).mean
+            ctx.close("qf_mean_skipvar", got2, r_j.expand(got2.shape), tol, cls=cls + ":mean_skipvar_after_update", alt=r_0.expand(got2.shape), strategy=strat, dist=dist)
     ctx.cell({k: v for k, v in case.items() if k != "seed"}, nontrivial=nontriv)
 
 
